@@ -1,7 +1,7 @@
 (** * Relay/RelayInstance.v — the generic C09 theorems instantiated with the real cursor codec
     (CursorCodec.v) and the harness's cursor order: their hypotheses are met by it. *)
 From Coq Require Import List ZArith Bool.
-From ApiFu Require Import Base.Sexp Relay.CursorCodec Relay.CursorCodecProofs
+From ApiFu Require Import Base.Sexp Relay.CursorCodec Relay.CursorCodecProofs Relay.CursorCodecTotal
      Relay.RelayModel Relay.RelayModelF Relay.RelaySpec Relay.RelayProofs Relay.RelaySerFailProofs.
 Import ListNotations.
 Open Scope Z_scope.
@@ -60,5 +60,29 @@ Section Instance.
     exact (walk_backward_exact_dir cursor E cursor_ltb cur cursor_ltb_irrefl cursor_ltb_trans cursor_ltb_total
              cursor_encode cursor_encode_f (cursor_decode k) a edges S d Happ enc_ok_instance decode_encode_instance
              cursor_encode_nonempty Hd n Hn).
+  Qed.
+  (** arbitrary counts and arbitrary byte strings as cursors, against the model the check runs with
+      the real codec: both strings are decoded within fuel = their length to a value or an error,
+      and the field answers as [arbitrary_cursor_f] says — never with the panic outcome *)
+  Theorem arbitrary_cursor_codec ar sel :
+    (forall s, cursor_decode_f (length s) k s <> DOutOfFuel) /\
+    serve_f cursor E cursor_ltb cur cursor_encode_f (cursor_decode k) sel a ar <> FError EPanicked /\
+    (args_rejected (a_first ar) (a_last ar) = true ->
+       exists e, serve_f cursor E cursor_ltb cur cursor_encode_f (cursor_decode k) sel a ar = FError e /\
+                 (e = EFirstNegative \/ e = EBothFirstLast \/ e = ELastNegative \/ e = ENoCount)) /\
+    (args_rejected (a_first ar) (a_last ar) = false ->
+       serve_f cursor E cursor_ltb cur cursor_encode_f (cursor_decode k) sel a ar = FError EInvalidAfter \/
+       serve_f cursor E cursor_ltb cur cursor_encode_f (cursor_decode k) sel a ar = FError EInvalidBefore \/
+       exists af bf,
+         decode_arg cursor (cursor_decode k) (a_after ar) EInvalidAfter = Ok af /\
+         decode_arg cursor (cursor_decode k) (a_before ar) EInvalidBefore = Ok bf /\
+         response_ok cursor E cursor_ltb cur cursor_encode S af bf (a_first ar) (a_last ar)
+           (serve cursor E cursor_ltb cur cursor_encode (cursor_decode k) a ar) /\
+         serve_f cursor E cursor_ltb cur cursor_encode_f (cursor_decode k) sel a ar =
+           lift cursor E cur cursor_encode sel (serve cursor E cursor_ltb cur cursor_encode (cursor_decode k) a ar)).
+  Proof.
+    split; [intro s; apply cursor_decode_never_out_of_fuel; apply Nat.le_refl|].
+    exact (arbitrary_cursor_f cursor E cursor_ltb cur cursor_ltb_irrefl cursor_ltb_trans cursor_ltb_total
+             cursor_encode cursor_encode_f (cursor_decode k) a edges S ar sel Happ enc_ok_instance).
   Qed.
 End Instance.
